@@ -129,11 +129,22 @@ def main():
     return _MAIN
 
 
-def parse(src: str, verify: bool = True):
+def parse(src: str, verify: bool = True, bind: dict | None = None):
+    """`bind`: further accelerator names of this compilation only (name -> "xdma" | "alu"): the registry belongs to the
+    context, one process compiles for differently configured clusters one after the other."""
     from xdsl.parser import Parser
 
     m = main()
     ctx = m.ctx.clone()
+    for name, kind in sorted((bind or {}).items()):
+        if kind == "xdma":
+            from snaxc.accelerators.snax_xdma import SNAXXDMAAccelerator
+
+            ctx.register_accelerator(name, lambda: SNAXXDMAAccelerator())
+        else:
+            from snaxc.accelerators.snax_alu import SNAXAluAccelerator
+
+            ctx.register_accelerator(name, lambda: SNAXAluAccelerator())
     mod = Parser(ctx, src).parse_module()
     if verify:
         mod.verify()
